@@ -540,7 +540,7 @@ static int doPoll(struct pollfd* fds, nfds_t n, ns_t timeoutNs) {
   if (earlyErrno) {
     for (nfds_t i = 0; i < n; i++) {
       FdEntry* e = entry(fds[i].fd);
-      if (e && e->s && e->s->onPoll) { K.inEnv = true; e->s->onPoll(-1); K.inEnv = false; }
+      if (e && e->s && e->s->onPoll) { K.inEnv = true; e->s->onPoll(-1, timeoutNs, 0); K.inEnv = false; }
     }
     errno = earlyErrno;
     return -1;
@@ -559,12 +559,13 @@ static int doPoll(struct pollfd* fds, nfds_t n, ns_t timeoutNs) {
     }
     return cnt;
   };
-  auto notify = [fds, n](int ret) {
+  ns_t pollStart = K.now;
+  auto notify = [fds, n, timeoutNs, pollStart](int ret) {
     for (nfds_t i = 0; i < n; i++) {
       FdEntry* e = entry(fds[i].fd);
       if (e && e->s && e->s->onPoll) {
         K.inEnv = true;
-        e->s->onPoll(ret);
+        e->s->onPoll(ret, timeoutNs, K.now - pollStart);
         K.inEnv = false;
       }
     }
